@@ -1,3 +1,5 @@
 module verif.local/vstat
 
 go 1.25
+
+require pgregory.net/rapid v1.3.0
